@@ -39,7 +39,8 @@ class Learner:
     def __init__(self, *a, **kw):
         self.kw = kw
         self.fitted = None
-        self.F = AckFun("learner_pred")
+        # one prediction function per path, shared by all estimator instances: equal (training data, seed, query) => equal prediction
+        self.F = AckFun.shared("learner_pred")
         Learner.log.append(self)
 
     def fit(self, X, y):  # noqa: N803
@@ -60,7 +61,7 @@ class Learner:
         if not return_std:
             return m
         if not hasattr(self, "G"):
-            self.G = AckFun("learner_std")
+            self.G = AckFun.shared("learner_std")
         s = np.empty(len(X), dtype=object)
         for i, row in enumerate(X):
             v = self.G(tr + list(np.atleast_1d(row)))[0]
